@@ -8,7 +8,6 @@ import contracts.matcher
 # Ghost state for C19: `is_open` per file object and the global counter GHOST.open_files of files
 # / streams that are open.  Functions that do not list GHOST.open_files in their modifies clause
 # leave it unchanged (frame): "nothing else was opened or left open".
-model('Ghost', fields={'open_files': 'int'}, external=True)
 MODELS['File'].fields['is_open'] = 'bool'
 MODELS['File'].ghost_fields = ('is_open',)
 assumed('File.close', self_type='File', params={}, modifies=['self.is_open', 'GHOST.open_files'],
@@ -66,8 +65,8 @@ assumed('os.path.abspath', params={'p': 'str'}, returns='str', pure=True)
 prim('frag_of', 'str -> str')
 prim('defrag_of', 'str -> str')
 assumed('url.urldefrag', params={'url': 'str'}, returns='Tuple[str, str]', pure=True,
-        ensures=[Clause('result == (defrag_of(url), frag_of(url))')],
-        raises=[Raise('ValueError')],
+        ensures=[Clause('result == (defrag_of(url), frag_of(url))'), Clause('url_ok(url)')],
+        raises=[Raise('ValueError', when='not url_ok(url)')],
         notes='urllib.parse.urldefrag + file:/// normalisation; ValueError for a malformed URL')
 assumed('str.splitsep2', params={'self': 'str', 'sep': 'str', 'maxsplit': 'int'}, returns='Seq[str]', pure=True,
         ensures=[Clause('len(result) >= 1 and len(result) <= maxsplit + 1')])
@@ -112,7 +111,7 @@ assumed('loader.BaseLoader._pathsep_rx.match', params={'string': 'str'}, returns
 contract('loader.BaseLoader.isPath', params={'s': 'str'}, returns='bool',
          ensures=[Clause('result == (scheme_len(s) == 0 or scheme_len(s) == 2)', carries='C18',
                          label='url-iff-scheme-of-two-or-more-characters')])
-prim('p2u', 'str -> str')
+prim('p2u', 'str -> str', args=['p'], axioms=["url_ok('file://' + result)"])
 prim('abspath_of', 'str -> str')
 REGISTRY['urllib.request.pathname2url'].ensures = [Clause('result == p2u(p)')]
 REGISTRY['os.path.abspath'].ensures = [Clause('result == abspath_of(p)')]
@@ -123,7 +122,8 @@ contract('loader.BaseLoader.normalizeURL', params={'url': 'str'}, returns='str',
                   Clause("frag_of(%s) == ''" % NORM_IN, carries='C18', label='no-fragment')],
          raises=[Raise('ZConfig.ConfigurationError', when="frag_of(%s) != ''" % NORM_IN,
                        carries='C18', label='fragment-rejected'),
-                 Raise('ValueError', label='malformed-url (documented behaviour of normalizeURL)')])
+                 Raise('ValueError', when='not url_ok(%s)' % NORM_IN,
+                       label='malformed-url (documented behaviour of normalizeURL)')])
 
 model('FileLike', fields={'name': 'Opt[str]', 'has_name': 'bool'}, optional={'name': 'has_name'}, external=True)
 contract('loader._url_from_file', params={'file_or_path': 'Ref[FileLike]'}, returns='Opt[str]',
@@ -135,27 +135,38 @@ contract('loader._url_from_file', params={'file_or_path': 'Ref[FileLike]'}, retu
 
 # ---- loading (C19: every opened resource is closed, however the load ends) -------------------------------
 MODELS['File'].bases = ['FileLike']
-UNCHANGED_OPEN = Clause('GHOST.open_files == old(GHOST.open_files)', carries='C19', label='nothing-left-open')
+from contracts.cfgparser import UNCHANGED_OPEN
+SCHEMA_WF = Clause("implies(isa(self, 'loader.ConfigLoader'), invariant_of(cast(self, 'loader.ConfigLoader').schema))", label='the-schema-of-a-configuration-loader-is-well-formed')
+LOADER_SCHEMA = contracts.cfgparser.LOADER_SCHEMA
 assumed('loader.BaseLoader.loadResource', params={'resource': 'Ref[loader.Resource]'}, returns='Opaque[PyVal]',
-        requires=[Clause('resource.file is not None', label='resource-is-open')],
-        modifies=['resource.file.lines', 'GHOST.open_files'],
+        requires=[Clause('resource.file is not None', label='resource-is-open'), SCHEMA_WF],
+        modifies=['resource.file.lines', 'GHOST.open_files', '*Sink.events', 'self.*'] + LOADER_SCHEMA,
         ensures=[UNCHANGED_OPEN],
-        raises=[Raise('ZConfig.ConfigurationError+', then=[UNCHANGED_OPEN], carries='C07,C19')],
+        raises=[Raise('ZConfig.ConfigurationError+', then=[UNCHANGED_OPEN], carries='C07,C19'),
+                Raise('OSError', then=[UNCHANGED_OPEN], label='io-error-while-reading (environment fault)'),
+                Raise('ValueError', then=[UNCHANGED_OPEN], label='a datatype function itself raised (passes through, C07)')],
         notes='abstract method: the contract every loader must meet (proved for ConfigLoader.loadResource)')
-contract('loader.BaseLoader.loadURL', params={'url': 'str'}, returns='Opaque[PyVal]',
-         modifies=['GHOST.open_files'],
+contract('loader.BaseLoader.loadURL', params={'url': 'str'}, returns='Opaque[PyVal]', requires=[SCHEMA_WF],
+         modifies=['GHOST.open_files', '*Sink.events', 'self.*'] + LOADER_SCHEMA,
          ensures=[UNCHANGED_OPEN],
          raises=[Raise('ZConfig.ConfigurationError+', then=[UNCHANGED_OPEN], carries='C07,C19', label='load-failed'),
                  Raise('OSError', then=[UNCHANGED_OPEN], carries='C19', label='io-error-while-reading'),
                  Raise('ValueError', then=[UNCHANGED_OPEN], label='malformed-top-level-url')])
 contract('loader.BaseLoader.loadFile', params={'file': 'Ref[File]', 'url': ('Opt[str]', 'None')},
-         returns='Opaque[PyVal]', modifies=['file.is_open', 'file.lines', 'GHOST.open_files'],
+         returns='Opaque[PyVal]', requires=[SCHEMA_WF],
+         modifies=['file.is_open', 'file.lines', 'GHOST.open_files', '*Sink.events', 'self.*'] + LOADER_SCHEMA,
          ensures=[Clause('not file.is_open and GHOST.open_files == old(GHOST.open_files) - (1 if old(file.is_open) else 0)',
                          carries='C19', label='callers-file-closed')],
          raises=[Raise('ZConfig.ConfigurationError+',
                        then=[Clause('not file.is_open and GHOST.open_files == old(GHOST.open_files) - '
                                     '(1 if old(file.is_open) else 0)', carries='C19', label='callers-file-closed-on-failure')],
-                       carries='C07,C19', label='load-failed')])
+                       carries='C07,C19', label='load-failed'),
+                 Raise('OSError', then=[Clause('not file.is_open and GHOST.open_files == old(GHOST.open_files) - '
+                                               '(1 if old(file.is_open) else 0)', carries='C19')],
+                       label='io-error-while-reading (environment fault)'),
+                 Raise('ValueError', then=[Clause('not file.is_open and GHOST.open_files == old(GHOST.open_files) - '
+                                                  '(1 if old(file.is_open) else 0)', carries='C19')],
+                       label='a datatype function itself raised (passes through, C07)')])
 
 # ---- the composite handler (C16) ------------------------------------------------------------------------------------
 import spec.handlers as SH
@@ -217,3 +228,98 @@ contract('loader.CompositeHandler.__call__', params={'handlermap': HMAP},
                      hints=['calls_from(%s, d, _i2)' % HS, 'all_mapped(%s, d, _i2)' % HS],
                      locals={'handler': 'str', 'value': 'Opaque[PyVal]', 'f': 'Opt[Fun[handler]]'},
                      modifies=['GHOST.calls'])])
+
+
+# ---- the configuration loader (C01, C05, C06, C12, C13, C19) -----------------------------------------------------
+MODELS['Sink'].ghost_fields = ('events',)
+MODELS['matcher.BaseMatcher'].bases = ['Sink']           # matchers are what the parser adds values to
+inline('loader.BaseLoader.__init__')
+model('loader.SchemaLoader', fields={}, external=False)
+model('loader.ConfigLoader',
+      fields={'schema': 'Ref[info.SectionType]', '_private_schema': 'bool', '_including': 'Seq[str]',
+              'has_including': 'bool', '_loader': 'Ref[loader.SchemaLoader]'},
+      optional={'_including': 'has_including'}, defaults={'has_including': 'False'},
+      ghost_fields=('has_including',), late_fields=('_loader', '_including'), bases=['ParserContext'])
+contract('loader.ConfigLoader.__init__', params={'schema': 'Ref[info.SectionType]'},
+         ensures=[Clause('self.schema == schema and not self._private_schema', carries='C13',
+                         label='uses-the-given-schema')])
+contract('loader.ConfigLoader.createSchemaMatcher', returns='Ref[matcher.SchemaMatcher]', fresh_result=True,
+         requires=[Clause('invariant_of(self.schema)', label='RI-of-the-schema')],
+         ensures=[Clause('fresh(result) and result.type == self.schema and len(result.handlers.items) == 0 and '
+                         'fresh(result.handlers)', carries='C13', label='new-matcher-for-the-schema')],
+         static_ensures=[Clause("isclass(result, 'matcher.SchemaMatcher')", label='constructs-a-plain-schema-matcher')])
+
+IOERR = contracts.cfgparser.IOERR
+INCL = "(old(self._including) if old(self.has_including) else [])"
+contract('loader.ConfigLoader._parse_resource',
+         params={'matcher': 'Ref[matcher.BaseMatcher]', 'resource': 'Ref[loader.Resource]',
+                 'defines': ('Opt[Ref[dict:defines]]', 'None')},
+         requires=[Clause('resource.file is not None', label='resource-is-open')],
+         modifies=['resource.file.lines', 'GHOST.open_files', '*Sink.events', 'defines.items'] + LOADER_SCHEMA,
+         asserts=[At('args[0] == resource and args[1] == self and args[2] == defines',
+                     call='ZConfig.cfgparser.ZConfigParser', carries='C05,C06',
+                     label='parser-gets-this-resource-this-loader-and-the-SAME-definitions-object'),
+                  At('args[0] == matcher', call='parser.parse', carries='C06',
+                     label='lines-are-delivered-to-the-given-section')],
+         ensures=[UNCHANGED_OPEN, Clause('len(val(resource.file).lines) == 0', carries='C03', label='read-to-the-end')],
+         raises=[Raise('ZConfig.ConfigurationError+', then=[UNCHANGED_OPEN], carries='C07,C19', label='rejected'), IOERR])
+contract('loader.ConfigLoader.includeConfiguration',
+         params={'section': 'Ref[matcher.BaseMatcher]', 'url': 'str', 'defines': 'Ref[dict:defines]'},
+         requires=[Clause('url_ok(url)', label='url-parses')],
+         modifies=['self._including', 'self.has_including', 'GHOST.open_files', '*Sink.events', 'defines.items']
+         + LOADER_SCHEMA,
+         asserts=[At('args[0] == section and args[2] == defines and val(args[1].url) == defrag_of(%s)'
+                     % NORM_IN.replace('(url)', '(old(url))').replace('else url)', 'else old(url))'),
+                     call='self._parse_resource', carries='C05,C06,C18',
+                     label='fragment-read-into-the-current-section-with-the-same-definitions-from-the-normalised-url')],
+         ensures=[UNCHANGED_OPEN,
+                  Clause('self.has_including and self._including == %s' % INCL, carries='C06,C07',
+                         label='include-stack-restored')],
+         raises=[Raise('ZConfig.ConfigurationError+',
+                       then=[UNCHANGED_OPEN,
+                             Clause('implies(self.has_including, self._including == %s)' % INCL, carries='C06,C07',
+                                    label='include-stack-restored-on-failure'),
+                             Clause('implies(not self.has_including, not old(self.has_including))')],
+                       carries='C07,C19', label='rejected'),
+                 Raise('OSError', then=[UNCHANGED_OPEN,
+                                        Clause('self.has_including and self._including == %s' % INCL, carries='C06',
+                                               label='include-stack-restored-on-failure')],
+                       label='io-error-while-reading-a-resource (environment fault, passes through)')])
+contract('loader.ConfigLoader.startSection',
+         params={'parent': 'Ref[matcher.BaseMatcher]', 'type_': 'str', 'name': 'Opt[str]'},
+         returns='Ref[matcher.SectionMatcher]',
+         requires=[Clause('forall(\'str\', lambda x: implies(x in self.schema._types.items and '
+                          "isa(self.schema._types.items[x], 'info.SectionType'), "
+                          "invariant_of(cast(self.schema._types.items[x], 'info.SectionType')) and "
+                          "self.schema._types.items[x].name is not None))", label='every-type-of-the-schema-is-well-formed')],
+         modifies=['parent.optionbag.sectitems'],
+         ensures=[Clause("type_.lower() in self.schema._types.items and "
+                         "not isa(self.schema._types.items[type_.lower()], 'info.AbstractType') and "
+                         "result.type == self.schema._types.items[type_.lower()]", carries='C01,C12',
+                         label='known-concrete-type'),
+                  Clause('fresh(result) and result.handlers == parent.handlers', carries='C13,C16')],
+         raises=[Raise('ZConfig.ConfigurationError+', carries='C01,C12',
+                       label='unknown-or-abstract-type-or-no-slot-or-name-not-allowed')])
+contract('loader.ConfigLoader.endSection',
+         params={'parent': 'Ref[matcher.BaseMatcher]', 'type_': 'str', 'name': 'Opt[str]',
+                 'matcher': 'Ref[matcher.BaseMatcher]'},
+         modifies=['matcher._values', 'matcher.handlers.items', 'parent._values', 'parent._sectionnames',
+                   'matcher.optionbag.keypairs'],
+         asserts=[At('args[0] == type_ and args[1] == name', call='parent.addSection', carries='C01,C02',
+                     label='completed-section-added-to-its-container-under-the-header-type-and-name')],
+         raises=[Raise('ZConfig.ConfigurationError+', carries='C01', label='section-incomplete-or-not-accepted')])
+
+contract('loader.ConfigLoader.loadResource', params={'resource': 'Ref[loader.Resource]'},
+         returns='Tuple[Opaque[PyVal], Ref[loader.CompositeHandler]]',
+         requires=[Clause('resource.file is not None', label='resource-is-open'), SCHEMA_WF],
+         modifies=['resource.file.lines', 'GHOST.open_files', '*Sink.events'] + LOADER_SCHEMA,
+         asserts=[At('args[1] == resource and fresh(args[0]) and args[0].type == old(self.schema) and '
+                     'len(args[0].handlers.items) == 0 and len(args) == 2', call='self._parse_resource',
+                     carries='C01,C05,C13', label='text-read-into-a-new-matcher-for-the-schema-with-no-definitions-carried-over'),
+                  At('args[0] == sm.handlers and args[1] == self.schema', call='CompositeHandler', carries='C16',
+                     label='composite-handler-over-the-handler-list-of-this-load')],
+         ensures=[UNCHANGED_OPEN,
+                  Clause('fresh(result[1]) and len(val(resource.file).lines) == 0', carries='C13', label='new-handler-object')],
+         raises=[Raise('ZConfig.ConfigurationError+', then=[UNCHANGED_OPEN], carries='C01,C07,C19', label='rejected'),
+                 Raise('OSError', then=[UNCHANGED_OPEN], label='io-error-while-reading (environment fault)'),
+                 Raise('ValueError', then=[UNCHANGED_OPEN], label='a datatype function itself raised (passes through, C07)')])
